@@ -13,6 +13,7 @@ from __future__ import annotations
 
 import ast
 import json
+import re
 import os
 import shutil
 import tempfile
@@ -491,7 +492,8 @@ def _oracle_lines(seq):
 
 
 # ----------------------------------------------------------------------------- generators
-STRS = ["", " ", "a", "start", "stop", "\n", "a\nb", '"', 'q"uo"te', "]", "[", "\n]", ",\n", "[\n", "}\n{", "\\", "\\n", "é", "日本語", "😀", " ", "\r\n", "\t", "\x00", "\x7f", "nul\x00l", "x" * 40]
+STRS = ["", " ", "a", "start", "stop", "\n", "a\nb", '"', 'q"uo"te', "]", "[", "\n]", ",\n", "[\n", "}\n{", "\\", "\\n", "é", "日本語", "😀", " ", "\r\n", "\t", "\x00", "\x7f", "nul\x00l", "x" * 40,
+        "scan_\udcb5m.dat", "\udc80"]   # lone surrogates (os.fsdecode of a non-UTF-8 file name): legal str, json.dumps escapes them
 
 
 def gen_value(rng, depth):
@@ -678,6 +680,11 @@ def run(ctx, model=True):
             # the model's own reading of the files (Lean's JSON parser / linesOf) against Python's
             files = dict(obs["files"])
             for p, txt in parsed:
+                if re.search(r"\\u[dD][89a-fA-F][0-9a-fA-F]{2}", files[p]):
+                    # a surrogate escape: Lean's String holds Unicode scalar values only, so Lean's parser cannot
+                    # agree with Python's here; the byte-level comparison of the file above is unaffected
+                    res.count("lean-json-parse-skipped:surrogate-escape")
+                    continue
                 try:
                     want = json.loads(files[p])
                 except Exception:  # noqa: BLE001
